@@ -122,6 +122,10 @@ def build(seed: int):
     add(("join_suffix_duplicate", "user_suffix"), ["ValueError"], [dict(id="oth", op="source", table="src_dup"),
                                                                    dict(id=oid, op="join", src="oth", right="oth_al", on=[{"fn": "equal", "args": [{"col": ["oth", "id"]}, {"col": ["oth_al", "id"]}]}], how="inner", suffix="_x"),
                                                                    ], )
+    # … also when the right column's own name does not clash and only its *suffixed* name does
+    add(("join_suffix_collision", "user_suffix_fresh_name"), ["ValueError"],
+        [dict(id="lft", op="source", table="src_sfx_l"), dict(id="rgt", op="source", table="src_sfx_r"),
+         dict(id=oid, op="join", src="lft", right="rgt", on=[{"fn": "equal", "args": [{"col": ["lft", "id"]}, {"col": ["rgt", "rid"]}]}], how="inner", suffix="_x")])
     add(("union_grouped", "left"), ["ValueError"], [gstmt, dict(id="al", op="alias", src=tid), dict(id=oid, op="union", src="grp", right="al")])
     add(("union_different_columns", "verb"), ["ValueError"], [other, dict(id=oid, op="union", src=tid, right="oth")])
     # 12. ordering markers outside arrange
@@ -151,6 +155,8 @@ def build(seed: int):
     # auxiliary tables for join / union offences
     prog["tables"].append(dict(name="src_other", cols=[dict(name="id", dtype="int64", vals=[1, 2, 3]), dict(name="zq", dtype="string", vals=["a", "b", None])]))
     prog["tables"].append(dict(name="src_dup", cols=[dict(name="id", dtype="int64", vals=[1, 2]), dict(name="id_x", dtype="int64", vals=[3, 4])]))
+    prog["tables"].append(dict(name="src_sfx_l", cols=[dict(name="id", dtype="int64", vals=[1, 2]), dict(name="v_x", dtype="int64", vals=[3, 4])]))
+    prog["tables"].append(dict(name="src_sfx_r", cols=[dict(name="rid", dtype="int64", vals=[1, 2]), dict(name="v", dtype="int64", vals=[5, 6])]))
     if rule[0] == "join_suffix_duplicate":
         extra = [extra[0], dict(id="oth_al", op="alias", src="oth"), extra[1]]
     prog["stmts"] = prog["stmts"] + extra + [dict(id="still_usable", op="export", src=tid, ordered=False)]
